@@ -379,7 +379,7 @@ var c04Polluters = []string{
 func c04FreshJudge(it c04Fresh) (sig, detail string) {
 	params, args, argsTrue := []string{}, []string{}, []string{}
 	for i := 0; i < it.P; i++ {
-		params = append(params, "p" + string(rune('a'+i)))
+		params = append(params, "p"+string(rune('a'+i)))
 		args = append(args, fmt.Sprintf("\"A%d\"", i))
 		argsTrue = append(argsTrue, fmt.Sprintf("\"T-arg%d\"", i))
 	}
